@@ -12,7 +12,9 @@ Open Scope Z_scope.
     written, and per write path (fixed order, see the harness) what was observed:
       outcome  0 accepted (nil error), 1 rejected (error), 2 panic
       store    0 the leaf holds what it held before, 1 it holds the written value, 2 anything else *)
-Inductive row := Row (pre : option value) (v : value) (obs : list (Z * Z)).
+Inductive row := Row (pre : option value) (v : value) (obs : list (Z * Z)) (tobs : list (Z * Z)).
+(** [obs]: the converting write paths (UpsertFrom JSON / XML / reflect node, UpdateFrom, InsertFrom,
+    SetValue); [tobs]: Selection.Set with a typed val.Value built by the harness *)
 
 (** [chain]: the restriction text of every level, leaf first, as written into the module;
     [ast]: the abstract syntax the generator printed that text from ([None]: the text was made
@@ -45,7 +47,7 @@ Definition strings_of (v : value) : list text :=
 (** every (pattern, string) the model or the spec will ask for is in the oracle table *)
 Definition rx_complete (tbl : list (text * text * bool)) (chain : list tlevel) (rows : list row) : bool :=
   forallb (fun l => forallb (fun p =>
-    forallb (fun r => match r with Row _ v _ =>
+    forallb (fun r => match r with Row _ v _ _ =>
       forallb (fun t => match rx_lookup tbl (fst p) t with Some _ => true | None => false end) (strings_of v) end)
       rows) (tl_pats l)) chain.
 
@@ -53,13 +55,18 @@ Definition rx_complete (tbl : list (text * text * bool)) (chain : list tlevel) (
       1  a type statement with two or more patterns: they are OR-ed (patternCheck)
       2  patterns on more than one level of the chain: the derived type's replace the base's (mixin)
       4  a min/max keyword as single value or on the wrong side of "..": that alternative matches
-         nothing (completeness only: the value it denotes is rejected) *)
+         nothing (completeness only: the value it denotes is rejected)
+      6  Selection.Set with a hand-built val.Enum / val.Bits: membership is only enforced by NewValue,
+         which Set does not run *)
 Definition has_pats (l : plevel) : bool := match pl_pats l with [] => false | _ => true end.
 Definition known_region (pc : list plevel) : option nat :=
   if existsb (fun l => (2 <=? length (pl_pats l))%nat) pc then Some 1%nat
   else if (2 <=? length (filter has_pats pc))%nat then Some 2%nat
   else if negb (placed_chain pc) then Some 4%nat
   else None.
+
+Definition known_region_b (b : base) (pc : list plevel) : option nat :=
+  if membership_base b then Some 6%nat else known_region pc.
 
 Definition obs_is (o st : Z) (p : Z * Z) : bool := (fst p =? o) && (snd p =? st).
 
@@ -97,15 +104,17 @@ Definition classify (c : case) : verdict :=
         end in
       let levels := match ast with Some a => a | None => [] end in
       let corr_row (r : row) :=
-        match r with Row pre v obs =>
+        match r with Row pre v obs tobs =>
           let '(o, st') := set_model rx b il chain pre v in
+          let '(ot, stt) := set_typed_model rx b il chain pre v in
           (* the harness never writes the value the leaf already holds *)
           negb (opt_eqv value_eqb pre (Some v)) && forallb (obs_is (code_of o) (store_code pre st' v)) obs
+          && forallb (obs_is (code_of ot) (store_code pre stt v)) tobs
         end in
       let spec_row (r : row) :=
-        match r with Row pre v obs =>
-          if in_effective_typeb rx b il levels v then forallb (obs_is 0 1) obs
-          else forallb (obs_is 1 0) obs
+        match r with Row pre v obs tobs =>
+          if in_effective_typeb rx b il levels v then forallb (obs_is 0 1) (obs ++ tobs)
+          else forallb (obs_is 1 0) (obs ++ tobs)
         end in
       let corr :=
         Bool.eqb loaded (match parsed with Some _ => true | None => false end) && ast_agrees &&
@@ -114,7 +123,7 @@ Definition classify (c : case) : verdict :=
       let spec :=
         Bool.eqb loaded (match ast with Some _ => true | None => false end) &&
         (if loaded then forallb spec_row rows else true) in
-      classify_gen corr spec (match parsed with Some pc => known_region pc | None => None end)
+      classify_gen corr spec (match parsed with Some pc => known_region_b b pc | None => None end)
   end.
 
 (** outside the listed regions the chain has at most one pattern and no misplaced keyword: these
@@ -256,3 +265,14 @@ Lemma hyps_met_witness :
        mkT (Some [x2d;x35;x2e;x2e;x31;x38;x34;x34;x36;x37;x34;x34;x30;x37;x33;x37;x30;x39;x35;x35;x31;x36;x31;x35]) None []]
       (VOne (SNum 20)) = Accepted.
 Proof. eexists. repeat split; vm_compute; reflexivity. Qed.
+
+(** finding 6: Set(val.Enum{99,"zz"}) on an enumeration that declares only "a" is stored *)
+Lemma kf6_refuted :
+  accept_typed rx_w (BEnum [([x61], 0)]) false [mkT None None []] (VOne (SEnumName [x7a; x7a])) = Accepted /\
+  accept rx_w (BEnum [([x61], 0)]) false [mkT None None []] (VOne (SEnumName [x7a; x7a])) = Rejected /\
+  known_region_b (BEnum [([x61], 0)]) [mkP None None []] = Some 6%nat /\
+  ~ in_effective_type rx_w (BEnum [([x61], 0)]) false [mkS None None []] (VOne (SEnumName [x7a; x7a])).
+Proof.
+  split; [vm_compute; reflexivity|]. split; [vm_compute; reflexivity|]. split; [vm_compute; reflexivity|].
+  intros H. apply in_effective_typeb_iff in H. vm_compute in H. discriminate.
+Qed.
